@@ -1768,7 +1768,7 @@ func (g *Gen) call(c *ssa.CallCommon, res ssa.Value, st *State, pos token.Pos) {
 // struct of (named) type T made by this function; arg0 is the object the field belongs to (its address), arg1 the value
 // about to be stored. ("this function only ever SETS Config.Manual")
 func (g *Gen) fieldStoreClauses(v *ssa.Store, st *State) {
-	if g.ctr == nil || g.ctr.AtCallBefore == nil {
+	if g.ctr == nil || (g.ctr.AtCallBefore == nil && g.ctr.AtCallDo == nil) {
 		return
 	}
 	fa, ok := v.Addr.(*ssa.FieldAddr)
@@ -1799,6 +1799,29 @@ func (g *Gen) fieldStoreClauses(v *ssa.Store, st *State) {
 			continue
 		}
 		g.addOb("before", h.Label, v.Pos(), st, t.S)
+	}
+	// `at call fieldstore:T.f do ghost = e`: the ghost assignment happens with the store (arg0, arg1 as above)
+	for _, d := range g.ctr.AtCallDo[k] {
+		g.markAtCall(k)
+		env := &SpecEnv{g: g, st: st, old: g.entry, fn: g.f, argOverride: map[string]Term{}, bound: map[string]Term{}, boundTypes: map[string]types.Type{}, evalBlock: g.curBlock}
+		env.bound["arg0"], env.boundTypes["arg0"] = g.val(fa.X, st), fa.X.Type()
+		env.bound["arg1"], env.boundTypes["arg1"] = g.val(v.Val, st), v.Val.Type()
+		val, err := env.eval(d.Expr)
+		if err != nil {
+			g.note("spec error in ghost assignment %s: %v", d.Name, err)
+			continue
+		}
+		idx := "0"
+		if d.Arg != nil {
+			av, err := env.eval(d.Arg)
+			if err != nil {
+				g.note("spec error in ghost assignment %s: %v", d.Name, err)
+				continue
+			}
+			idx = av.T.S
+		}
+		arr := g.w.heapArr(st, "ghost:"+d.Name, "Int")
+		st.heap["ghost:"+d.Name] = T(fmt.Sprintf("(store %s %s %s)", arr.S, idx, val.T.S), arr.Sort)
 	}
 }
 
